@@ -77,7 +77,7 @@ CHECKS["C19"] = dict(engine="wire", technique="stateful property-based testing o
 
 CHECKS["C15"] = dict(engine="wire", technique="property-based testing over exchange/idle schedules with measured real idle periods (one-directional expiry oracle) + LRU ledger",
    text="Exploration: generated schedules of exchanges with 2..6 peers against a handler with capacity 1..5 and session timeout 120 ms / 1 day; after a MEASURED idle > 1.3 x timeout the next datagram must not be encrypted under a pre-idle key and an old-session message must not be delivered; the probe snapshot never exceeds the capacity and evictions hit exactly the least recently used peer. Found that expired sessions stayed in use on the pinned tree (fixed).",
-   note="Real sleeps (std::time::Instant); only one-directional claims so that machine load cannot cause an alarm. Quick tier is small (160 cases) because every expiry case sleeps ~0.2-0.4 s.",
+   note="Real sleeps (std::time::Instant); only one-directional claims so that machine load cannot cause an alarm. Quick tier is comparatively small (1200 cases) because every expiry case sleeps ~0.2-0.4 s of real time.",
    ref="7.5 / C15")
 
 CHECKS["C14"] = dict(engine="svc", technique="property-based testing of the real service behind a scripted handler: generated table contents and requests, validity predicates over the emitted responses",
